@@ -140,6 +140,12 @@ type encCase struct {
 }
 
 func genEncCases(g *gen.G, n int, types map[string]reflect.Type) []encCase {
+	return genEncCasesOpt(g, n, types, false)
+}
+
+// anyPrims: additionally put every primitive Go type into every interface-typed position, whatever the selector announces
+// (such values are encodable, but not well-formed in C01's sense: Decode types the position by the selector)
+func genEncCasesOpt(g *gen.G, n int, types map[string]reflect.Type, anyPrimsToo bool) []encCase {
 	names := typeNames(types)
 	var cs []encCase
 	for i := 0; i < n; i++ {
@@ -156,6 +162,27 @@ func genEncCases(g *gen.G, n int, types map[string]reflect.Type) []encCase {
 			top = p.Elem().Interface()
 		}
 		cs = append(cs, encCase{typ: name, val: p, top: top, line: render.Top(top)})
+	}
+	if !anyPrimsToo {
+		return cs
+	}
+	// every primitive Go type the codec knows, in every interface-typed position, whatever the selector announces
+	d1, d2, d3 := 90*time.Second, time.Hour, 1500*time.Millisecond
+	i32, i64, en, bo, st, by, tm := int32(-5), int64(1)<<40, kmip.Enum(7), true, "text", []byte{1, 2, 3}, time.Unix(1000000000, 0)
+	anyPrims := []interface{}{i32, i64, en, bo, st, by, tm, d1, d2, d3, &i32, &i64, &en, &bo, &st, &by, &tm, &d1}
+	for _, name := range []string{"Attribute", "RequestBatchItem", "ResponseBatchItem", "Authentication"} {
+		t := types[name]
+		for fi := 0; fi < t.NumField(); fi++ {
+			if t.Field(fi).Type.Kind() != reflect.Interface || t.Field(fi).Tag.Get("kmip") == "" || strings.Contains(t.Field(fi).Tag.Get("kmip"), "skip") {
+				continue
+			}
+			for _, pv := range anyPrims {
+				p := g.NewStruct(t)
+				p.Elem().Field(fi).Set(reflect.ValueOf(pv))
+				var top interface{} = p.Interface()
+				cs = append(cs, encCase{typ: name, val: p, top: top, line: render.Top(top)})
+			}
+		}
 	}
 	return cs
 }
@@ -175,7 +202,7 @@ func runC02(r *Result, d *drv.Driver, tier string, seed int64, replay string) {
 		g.WF = round%2 == 0
 		g.Big = round%3 == 2
 		g.JunkDyn = 0.05
-		cs := genEncCases(g, n, types)
+		cs := genEncCasesOpt(g, n, types, true)
 		var lines []string
 		for i := range cs {
 			cs[i].real, _, _ = realEncode(cs[i].top)
